@@ -467,7 +467,7 @@ fn run_walks(cfg: &RunCfg, stats: &mut Stats, stride: usize) -> Outcome {
                 sc.spawn(move || {
                     install_hook();
                     let mut st = Stats::default();
-                    let opts = crate::drive::WalkOpts { profile: crate::drive::Profile::Normal, expand: None, follow_norep: false, inject: crate::drive::Inject::No, interfere: false };
+                    let opts = crate::drive::WalkOpts { profile: crate::drive::Profile::Normal, expand: None, follow_norep: false, inject: crate::drive::Inject::No, interfere: false, play_on: false };
                     let mut n = 0usize;
                     for ci in 0..12u8 {
                         let code = if ci < 6 { m::mk(true, ci + 1) } else { m::mk(false, ci - 5) };
